@@ -222,12 +222,26 @@ R15_6_REQ = {
 }
 
 
+# a NaN from the caller passes `x <= 0.`, `x < lo`, `x > hi` alike (no memory error was demonstrated for any of them)
+R15_6_NAN = {
+    'bitrate_av_damp': 'NaN damping: slewlimit=15./NaN is NaN, both clamps of the slew compare false and leave it as rint(choice-avgfloat) '
+                       'scaled, so avgfloat moves to within 0.5 of choice in [0,14]; choice stays an index of packetblob[15]',
+    'bitrate_reservoir_bias': 'NaN bias: desired_fill=(long)(bits*NaN) is an out-of-range conversion (undefined in ISO C; LONG_MIN on '
+                              'x86-64); it is only compared with fill levels, never used as an index or size (reported by an independent '
+                              'agent under UBSan as signed-overflow reports in bitrate.c, no memory error)',
+    'lowpass_kHz': 'NaN lowpass: neither clamp fires; vorbis_encode_residue_setup computes freq>nyq? comparisons false, (int)(NaN) is '
+                   'undefined in ISO C (INT_MIN on x86-64) and r->end is then clamped by `if(r->end==0)`... not demonstrated harmful',
+    'impulse_noisetune': 'NaN noise tune: added to the noise bias tables (floats); no index or size derives from it',
+}
+
+
 def r15_6(chk, P):
     chk.rule('R15.6', 'control requests store only validated values: every value vorbis_encode_ctl copies from the caller\'s argument '
              'into a range-constrained field of the staged set-up (damping >= 0, reservoir bias in [0,1], reservoir size >= 0, '
              'lowpass in [2,99], impulse noise tune in [-15,0]) is inside that range at the store, or is clamped into it before '
              'every return that follows the store (K4 integer and floating intervals refined by the request\'s own checks, '
-             'whatever the other members of the argument are)')
+             'whatever the other members of the argument are).  The intervals describe the non-NaN values: a NaN passes every '
+             'IEEE comparison and is stored as it is; that case is listed per field as an assumption with what the consumer does')
     import absint
     F = P.need('vorbis_encode_ctl')
     at_store = {}
@@ -264,9 +278,37 @@ def r15_6(chk, P):
         i = per.get(fld, 0)
         per[fld] = i + 1
         chk.ob('R15.6', F.name, f'store:{fld}#{i}', ok, F.where(e), how)
+        if fld in R15_6_NAN and i == 0:
+            chk.assumed('R15.6', F.name, f'nan:{fld}', F.where(e), R15_6_NAN[fld])
+
+
+def r15_7(chk, P):
+    chk.rule('R15.7', 'a refused control request changes nothing: on every path of vorbis_encode_ctl that ends in a negative return '
+             'code no field of the staged set-up (highlevel_encode_setup and its per-block records) has been stored '
+             '("set-up ... fails cleanly": the state the application sees through the GET requests is the one before the call)')
+    F = P.need('vorbis_encode_ctl')
+    wrote = k2.any_of(k2.stores_field('highlevel_encode_setup', None, ops=None), k2.stores_field('highlevel_byblocktype', None, ops=None))
+    A, h = k2.analyse(P, F, [('wrote', wrote, True)])
+    n = 0
+    bad = {}
+    for (e, fl, v, env) in k2.ret_value_classes(A):
+        if v is None or v.hi >= 0:
+            continue
+        n += 1
+        if 'wrote' in fl:
+            bad.setdefault(e, v)
+    chk.require(n >= 3, f'vorbis_encode_ctl: only {n} refusing returns seen')
+    for i, e in enumerate(sorted({e for (e, fl, v, env) in k2.ret_value_classes(A) if v is not None and v.hi < 0},
+                                 key=lambda x: F.ex[x]['loc'])):
+        chk.ob('R15.7', F.name, f'refusal@{i}', e not in bad, F.where(e),
+               'no set-up field is stored on any path to this refusal' if e not in bad else
+               f'returns {bad[e]} after a field of the staged set-up was stored on the path: the request is refused but has '
+               'already changed the state')
 
 
 def run(chk, P):
+    r15_7(chk, P)
+    chk.floor('R15.7', 3)
     r15_2(chk, P)
     chk.floor('R15.2', 8)
     r15_3(chk, P)
